@@ -130,6 +130,8 @@ pub fn run(tier: &str, seed: u64, widen: bool) -> Report {
     crate::c01_eq::run(&mut rep, &mut rng, tier, widen);
     // evaluation order of struct-literal members, array items, arguments, operands
     crate::c01_order::run(&mut rep, &mut rng, tier, widen);
+    // value semantics of aggregate copies (the CopyLang programs of C02 are well-typed programs too)
+    crate::c02_copy::run(&mut rep, &mut rng, tier, widen);
     rep
 }
 
